@@ -115,7 +115,7 @@ func clonePS(ps *dss.PartialSig) *dss.PartialSig {
 		SessionID: append([]byte{}, ps.SessionID...), Signature: append([]byte{}, ps.Signature...)}
 }
 
-func newWorld(src string, n, t, p int, msg []byte) *world {
+func newWorld(src string, n, kt, t, p int, msg []byte) *world {
 	w := &world{n: n, t: t, p: p, msg: msg, events: map[string]*dss.PartialSig{}}
 	ed := edwards25519.NewBlakeSHA256Ed25519()
 	w.suite = func(label string) dss.Suite {
@@ -127,9 +127,9 @@ func newWorld(src string, n, t, p int, msg []byte) *world {
 		w.secs, w.pubs = append(w.secs, s), append(w.pubs, ed.Point().Mul(s, nil))
 	}
 	var x, k *big.Int
-	w.long, x = mkShares(ed, src, "long", n, t)
-	w.rnd, k = mkShares(ed, src, "random", n, t)
-	w.rnd2, _ = mkShares(ed, src, "random-other-session", n, t)
+	w.long, x = mkShares(ed, src, "long", n, kt)
+	w.rnd, k = mkShares(ed, src, "random", n, kt)
+	w.rnd2, _ = mkShares(ed, src, "random-other-session", n, kt)
 	w.pub = w.long[0].commits[0]
 	// reference signature: R || (k + H(R,A,m) x)
 	R := w.rnd[0].commits[0]
@@ -179,7 +179,12 @@ func newWorld(src string, n, t, p int, msg []byte) *world {
 		if i == (p+1)%n {
 			o, _ := mk(i, w.rnd2, msg, "other-session").PartialSig()
 			w.events[fmt.Sprintf("other-session:%d", i)] = o
-			om, _ := mk(i, w.rnd, append([]byte("another "), msg...), "other-message").PartialSig()
+			otherMsg := append([]byte("another "), msg...)
+			if len(msg) > 64 {
+				// the same first 64 bytes (one hash block), another tail
+				otherMsg = append(append([]byte{}, msg[:len(msg)-1]...), msg[len(msg)-1]^1)
+			}
+			om, _ := mk(i, w.rnd, otherMsg, "other-message").PartialSig()
 			w.events[fmt.Sprintf("other-message:%d", i)] = om
 			for _, idx := range []uint32{uint32(n), uint32(n + 1), math.MaxUint32, uint32(p)} {
 				c := clonePS(ps)
@@ -212,34 +217,40 @@ func Run(c *vf.Check) {
 				if !c.Thorough() && n == 4 && p != 0 && p != 3 {
 					continue
 				}
-				for mi, msg := range [][]byte{[]byte("c12 message"), {}} {
-					if mi == 1 && (p != 0 || t != 2) {
+				long := []byte("a message that is longer than one block of the hash function: 0123456789abcdefghijklmnopqrstuvwxyzABCDEFGHIJKLMNOPQRSTUVWXYZ")
+				for mi, msg := range [][]byte{[]byte("c12 message"), {}, long} {
+					if mi >= 1 && (p != 0 || t != 2) {
 						continue
 					}
 					n, t, p, msg := n, t, p, msg
-					jobs = append(jobs, func() { explore(c, "poly", n, t, p, msg) })
+					jobs = append(jobs, func() { explore(c, "poly", n, t, t, p, msg) })
+				}
+				// a signing threshold above the threshold of the distributed keys
+				if t > 2 && (p == 0 || c.Thorough()) {
+					n, t, p := n, t, p
+					jobs = append(jobs, func() { explore(c, "poly", n, t-1, t, p, []byte("c12 message")) })
 				}
 				// keys produced by the DKG implementations themselves (thresholds both accept)
 				if t >= n/2+1 && (n == 3 || c.Thorough()) && (p == 0 || p == n-1 || c.Thorough()) {
 					for _, src := range []string{"pedersen", "pedersen-fast", "rabin"} {
 						n, t, p, src := n, t, p, src
-						jobs = append(jobs, func() { explore(c, src, n, t, p, []byte("c12 message")) })
+						jobs = append(jobs, func() { explore(c, src, n, t, t, p, []byte("c12 message")) })
 					}
 				}
 			}
 		}
 	}
 	vf.Parallel(len(jobs), func(i int) { jobs[i]() })
-	c.Finish("engine S (explicit-state BFS, successor = replay on a fresh DSS object, merged on the model's accepted set + EnoughPartialSig + per-signer delivery counts (capped at 2) + order of own PartialSig() and the echo of the own partial): n=3,4 (thorough ..5), every 2<=t<=n, at every participant (n=4: first and last), keys from seeded polynomials and (n=3; thorough also 4, 5) from the Pedersen, Pedersen fast-sync and Rabin DKG implementations: all histories up to depth n+2 over {own PartialSig(), per other signer: valid partial, value+1 re-signed, signature bit-flipped; own partial echoed back; partial of another session, for another message, with replaced session id, with index n, n+1, 2^32-1 and the receiver's own index}. "+
+	c.Finish("engine S (explicit-state BFS, successor = replay on a fresh DSS object, merged on the model's accepted set + EnoughPartialSig + per-signer delivery counts (capped at 2) + order of own PartialSig() and the echo of the own partial): n=3,4 (thorough ..5), every 2<=t<=n, at every participant (n=4: first and last), keys from seeded polynomials (also with a key threshold below the signing threshold) and (n=3; thorough also 4, 5) from the Pedersen, Pedersen fast-sync and Rabin DKG implementations, messages of 0, 11 and 125 bytes: all histories up to depth n+2 over {own PartialSig(), per other signer: valid partial, value+1 re-signed, signature bit-flipped; own partial echoed back; partial of another session, for another message, with replaced session id, with index n, n+1, 2^32-1 and the receiver's own index}. "+
 		"Oracle after every transition: ProcessPartialSig succeeds exactly for a first valid partial of this session; EnoughPartialSig <=> |accepted| >= t; Signature() errors below t and otherwise returns exactly R || (k + H(R,A,m) x) computed with math/big from the polynomials, which verifies under dss.Verify, eddsa.Verify and crypto/ed25519 - identical in every state and at every participant. "+
 		"non-trivial = histories of length >= 2 reaching a new accepted set",
 		[]string{"distributed keys: (share, commitment) pairs of seeded polynomials for every n, t; for the thresholds the DKGs accept additionally the outputs of all-honest runs of the real Pedersen (regular and fast-sync) and Rabin DKG code, the reference secret then interpolated in math/big from the shares", "state merging assumes the accepted set determines future behaviour"}, nil)
 }
 
-func explore(c *vf.Check, src string, n, t, p int, msg []byte) {
+func explore(c *vf.Check, src string, n, kt, t, p int, msg []byte) {
 	pk := "C12/dss"
 	var w *world
-	c.Case(fmt.Sprintf("dss keys=%s n=%d t=%d p=%d msg=%d: setup", src, n, t, p, len(msg)), pk+"/setup", func(x *vf.Ctx) { w = newWorld(src, n, t, p, msg) })
+	c.Case(fmt.Sprintf("dss keys=%s n=%d key-threshold=%d t=%d p=%d msg=%d: setup", src, n, kt, t, p, len(msg)), pk+"/setup", func(x *vf.Ctx) { w = newWorld(src, n, kt, t, p, msg) })
 	if w == nil {
 		return
 	}
@@ -252,7 +263,7 @@ func explore(c *vf.Check, src string, n, t, p int, msg []byte) {
 		var next []node
 		for _, nd := range frontier {
 			hist := nd.hist
-			id := fmt.Sprintf("dss keys=%s n=%d t=%d at=%d msglen=%d: %s", src, n, t, p, len(msg), strings.Join(hist, " ; "))
+			id := fmt.Sprintf("dss keys=%s n=%d key-threshold=%d t=%d at=%d msglen=%d: %s", src, n, kt, t, p, len(msg), strings.Join(hist, " ; "))
 			key := ""
 			c.Case(id, pk, func(x *vf.Ctx) {
 				d, err := dss.NewDSS(w.suite("observer"), w.secs[p], w.pubs, w.long[p], w.rnd[p], msg, uint32(t))
